@@ -300,13 +300,25 @@ func resolveRoles(a *A, rule string) *Roles {
 		// fall back: the method that reaches dc.Close
 		r.CloseConn = w.method(w.Root, "slaveConnection", "close")
 	}
-	if !a.need(r.Prepare != nil, rule, "handshake preparation (constructor's callee that calls Exec)") ||
-		!a.need(r.ConnErrChan != nil && r.ConnDC != nil, rule, "slaveConnection fields (chan *Error, dumpConn)") ||
+	if r.Prepare == nil {
+		// not reachable from the constructor: any function of the package that calls Exec (C07 decides whether it runs)
+		for _, f := range w.srcFuncs(w.Root) {
+			instrs(f, func(i2 ssa.Instruction) {
+				if cc := callCommon(i2); cc != nil && isInvokeOf(cc, "Exec") && r.Prepare == nil {
+					r.Prepare = f
+				}
+			})
+		}
+	}
+	if !a.need(r.ConnErrChan != nil && r.ConnDC != nil, rule, "slaveConnection fields (chan *Error, dumpConn)") ||
 		!a.need(r.CloseConn != nil, rule, "connection close method") {
 		return nil
 	}
 	a.touch(r.Stream, r.ErrorM, r.SetPos, r.NewStreamer, r.GetPos, r.Parser, r.Commit, r.Begin,
-		r.NewConn, r.StartDump, r.Reader, r.ReadEvent, r.Prepare, r.CloseConn)
+		r.NewConn, r.StartDump, r.Reader, r.ReadEvent, r.CloseConn)
+	if r.Prepare != nil {
+		a.touch(r.Prepare)
+	}
 	return r
 }
 
